@@ -1222,6 +1222,9 @@ type state struct {
 // invalid relative to the installed versions all occur).
 var quickGenerated = map[string]bool{"1.0.0-beta.11": true, "1.0.0": true, "1.0": true}
 
+// thoroughGenerated: the six versions the generated shapes meet in the thorough tier.
+var thoroughGenerated = map[string]bool{"1.0.0-beta.2": true, "1.0.0-beta.11": true, "1.0.0": true, "1.0.0+b1": true, "1.0": true, "": true}
+
 func alphabet(thorough bool) (ops []op, vs []ver, shs []shape) {
 	for _, v := range versions {
 		if thorough || v.Quick {
@@ -1239,7 +1242,7 @@ func alphabet(thorough bool) (ops []op, vs []ver, shs []shape) {
 				if v.PlainOnly && !plainShape(&s) {
 					continue
 				}
-				if s.Sub && (!v.Quick || (!thorough && !quickGenerated[v.S])) {
+				if s.Sub && (!thoroughGenerated[v.S] || (!thorough && !quickGenerated[v.S])) {
 					// what a sub-directory, a misnamed or an invalid answer does to an installation
 					// does not depend on the version: these shapes meet the six versions of the quick set only
 					continue
